@@ -235,6 +235,77 @@ func (ip *Interp) structField(sfT types.Type, st *types.Struct, i int) AV {
 	return sf
 }
 
+// rvalField: Value.Field(i) with reflect's read-only flags: an unexported field is read-only and so is everything
+// below it, except that exported fields promoted through an unexported embedded struct stay settable (flagEmbedRO
+// is not sticky).
+func rvalField(rv *RValV, i int) *RValV {
+	st := rv.T.Underlying().(*types.Struct)
+	if i < 0 || i >= st.NumFields() {
+		rtPanic("reflect: Field index out of range")
+	}
+	f := st.Field(i)
+	out := &RValV{T: f.Type(), RO: rv.RO || (!f.Exported() && !f.Embedded()), EmbedRO: !f.Exported() && f.Embedded()}
+	if rv.Addr != nil {
+		out.Addr = &Ptr{O: rv.Addr.O, Path: append(append([]int{}, rv.Addr.Path...), i)}
+	} else if sv, ok := rv.V.(*StructV); ok {
+		out.V = copyVal(sv.F[i])
+	}
+	return out
+}
+
+// visibleFields follows reflect.VisibleFields: every field of t and of its anonymous struct fields (through
+// pointers too) that a selector can reach — the shallowest occurrence of a name wins, two at the same depth hide
+// each other — in breadth-… no: in the order reflect yields them (declaration order, depth first), each with its
+// index path.
+func visibleFields(t types.Type) (fields []*types.Var, tags []string, paths [][]int) {
+	type cand struct {
+		f     *types.Var
+		tag   string
+		path  []int
+		depth int
+	}
+	var all []cand
+	var walk func(st *types.Struct, path []int, depth int, seen map[types.Type]bool)
+	walk = func(st *types.Struct, path []int, depth int, seen map[types.Type]bool) {
+		for i := 0; i < st.NumFields(); i++ {
+			f := st.Field(i)
+			p := append(append([]int{}, path...), i)
+			all = append(all, cand{f, st.Tag(i), p, depth})
+			if f.Embedded() {
+				ft := f.Type()
+				if pt, ok := ft.Underlying().(*types.Pointer); ok {
+					ft = pt.Elem()
+				}
+				if sub, ok := ft.Underlying().(*types.Struct); ok && !seen[ft] {
+					seen[ft] = true
+					walk(sub, p, depth+1, seen)
+					delete(seen, ft)
+				}
+			}
+		}
+	}
+	st, ok := t.Underlying().(*types.Struct)
+	if !ok {
+		rtPanic("reflect.VisibleFields of non-struct type")
+	}
+	walk(st, nil, 0, map[types.Type]bool{t: true})
+	for i, c := range all {
+		visible := true
+		for j, d := range all {
+			if i == j || d.f.Name() != c.f.Name() {
+				continue
+			}
+			if d.depth < c.depth || d.depth == c.depth {
+				visible = false
+			}
+		}
+		if visible {
+			fields, tags, paths = append(fields, c.f), append(tags, c.tag), append(paths, c.path)
+		}
+	}
+	return
+}
+
 func isNilAV(v AV) bool {
 	_, ok := v.(NilV)
 	return ok
@@ -306,6 +377,39 @@ func (ip *Interp) modelReflect(fn *ssa.Function, name string, args []AV) (AV, bo
 			cur = append(cur, ip.asType(xv, sl.Elem()))
 		}
 		return &RValV{T: s.T, V: ip.mkSlice(cur)}, true
+	case "reflect.VisibleFields":
+		t := rtypeOf(args[0]).T
+		fs, tags, paths := visibleFields(t)
+		sfT := fn.Signature.Results().At(0).Type().Underlying().(*types.Slice).Elem()
+		var out []AV
+		for i, f := range fs {
+			sf := ip.zeroOf(sfT).(*StructV)
+			ss := sfT.Underlying().(*types.Struct)
+			for j := 0; j < ss.NumFields(); j++ {
+				switch ss.Field(j).Name() {
+				case "Name":
+					sf.F[j] = kStr(f.Name())
+				case "PkgPath":
+					if !f.Exported() && f.Pkg() != nil {
+						sf.F[j] = kStr(f.Pkg().Path())
+					}
+				case "Type":
+					sf.F[j] = ip.rtypeIface(f.Type())
+				case "Tag":
+					sf.F[j] = kStr(tags[i])
+				case "Anonymous":
+					sf.F[j] = kBool(f.Embedded())
+				case "Index":
+					var ix []AV
+					for _, k := range paths[i] {
+						ix = append(ix, kInt(int64(k)))
+					}
+					sf.F[j] = ip.mkSlice(ix)
+				}
+			}
+			out = append(out, sf)
+		}
+		return ip.mkSlice(out), true
 	case "reflect.Indirect":
 		rv := rvalOf(args[0])
 		if _, ok := rv.T.Underlying().(*types.Pointer); ok {
@@ -394,21 +498,29 @@ func (ip *Interp) modelReflect(fn *ssa.Function, name string, args []AV) (AV, bo
 		return kInt(int64(rv.T.Underlying().(*types.Struct).NumFields())), true
 	case "Field":
 		mustKind(reflect.Struct)
-		st := rv.T.Underlying().(*types.Struct)
-		i := int(avInt(args[1]))
-		if i < 0 || i >= st.NumFields() {
-			rtPanic("reflect: Field index out of range")
+		return rvalField(rv, int(avInt(args[1]))), true
+	case "FieldByIndex":
+		cur := rv
+		idx, _ := args[1].(*SliceV)
+		if idx == nil {
+			ood("reflect.Value.FieldByIndex index")
 		}
-		f := st.Field(i)
-		// reflect: an unexported field is read-only and so is everything below it, except that exported fields
-		// promoted through an unexported embedded struct stay settable (flagEmbedRO is not sticky)
-		out := &RValV{T: f.Type(), RO: rv.RO || (!f.Exported() && !f.Embedded()), EmbedRO: !f.Exported() && f.Embedded()}
-		if rv.Addr != nil {
-			out.Addr = &Ptr{O: rv.Addr.O, Path: append(append([]int{}, rv.Addr.Path...), i)}
-		} else if sv, ok := rv.V.(*StructV); ok {
-			out.V = copyVal(sv.F[i])
+		for k, e := range idx.elems() {
+			if k > 0 {
+				// reflect: an embedded *pointer* is followed (nil panics); an embedded struct is entered directly
+				if _, isPtr := cur.T.Underlying().(*types.Pointer); isPtr {
+					if isNilAV(cur.get()) {
+						rtPanic("reflect: indirection through nil pointer to embedded struct")
+					}
+					cur = ip.rvalElem(cur)
+				}
+			}
+			if kindOf(cur.T) != reflect.Struct {
+				rtPanic("reflect: call of reflect.Value.FieldByIndex on %s Value", kindOf(cur.T))
+			}
+			cur = rvalField(cur, int(avInt(e)))
 		}
-		return out, true
+		return cur, true
 	case "Len":
 		switch x := rv.get().(type) {
 		case *SliceV:
